@@ -1729,10 +1729,29 @@ def c11_families(tier, seed, ids=None):
                         lst([bin_(op, bin_(op, a, r), d)]), bin_(op, bin_(op, a, un("-", c) if tname in ("ints", "floats") else r), d), bin_(op, bin_(op, r, a), d)]
             items = pre + shapes(ea, eb, ec, ed) + shapes(A, B, Cc, D) + [assign("h", fn(["p", "q", "r", "w"], block(shapes(N("p"), N("q"), N("r"), N("w"))[2:4] + [lst(shapes(N("p"), N("q"), N("r"), N("w"))[:4])]))), call("h", A, B, Cc, D), I(1)]
             gr.append(mk(ids, items, {"grouping": op, "kinds": tname}))
+    # the forms the compiler special-cases into one instruction (x = x + 1, x = 1 + x) next to their neighbours (a float one, another
+    # step, another target): integer, float, string, array and nil in x, as global, local, parameter and captured variable
+    incs = []
+    steps = {"int-one": I(1), "float-one": Fl(1, 0), "float-one-point-five": Fl(3, 1), "two": I(2), "minus-one": I(-1), "string-one": St("1"), "true": Bo(True)}
+    holds = {"int": I(5), "float": Fl(5, 1), "zero": I(0), "string": St("s"), "array": lst([I(1)]), "nil": None}
+    for sname, st in steps.items():
+        for hname, h in holds.items():
+            for side in ("x+k", "k+x"):
+                e = lambda nm: bin_("+", N(nm), st) if side == "x+k" else bin_("+", st, N(nm))
+                probe = lambda nm: [N(nm), bin_("/", N(nm), I(4)), bin_("==", bin_("/", N(nm), I(4)), bin_("/", N(nm), Fl(4, 0)))]
+                pre = [assign("x", h)] if h is not None else []
+                items = pre + [assign("x", e("x"))] + probe("x") + [assign("y", e("x"))] + probe("y")
+                items += [assign("f", fn(["n"], block([assign("n", e("n"))] + [lst(probe("n"))]))), call("f", h if h is not None else N("nope")),
+                          assign("g", fn([], block(([assign("m", h)] if h is not None else []) + [assign("m", e("m")), lst(probe("m"))]))), call("g"),
+                          assign("mk", fn(["c"], fn([], block([assign("c", e("c")), lst(probe("c"))])))), assign("cnt", call("mk", h if h is not None else N("nope"))), call("cnt"), call("cnt")]
+                incs.append(mk(ids, items, {"increment": sname, "holds": hname, "side": side}))
+    if tier == "quick":
+        incs = [x for x in incs if x["meta"]["increment"] in ("int-one", "float-one") or shash((x["meta"]["increment"], x["meta"]["holds"], seed)) % 3 == 0]
     return [("binary operators over special values as the compiler builds them: bare, negated, via globals, via parameters", ss, ("value",)),
             ("unary operators, nested", us, ("value",)), ("index and slice bounds over values however produced", ix, ("value",)),
             ("operators on the results of two extensions of one grown value", fo, ("value",)),
-            ("operators whose operands are operator expressions, every grouping and nesting position", gr, ("value",))]
+            ("operators whose operands are operator expressions, every grouping and nesting position", gr, ("value",)),
+            ("increment forms and their neighbours over every kind of value and variable", incs, ("value",))]
 
 
 c11_rule = ("17 binary operators x 18x18 operands (ints, exact floats, signed zero, NaN, +-Inf, booleans, strings, arrays (one holding NaN), nil, a function) each written bare, "
